@@ -280,9 +280,10 @@ def _retrace_trace_corrupt(ev):
     return ev
 
 
-def retrace_trace(run, scratch, name, focus, n, queries, files, workers=10, timeout=3000):
+def retrace_trace(run, scratch, name, focus, n, queries, files, workers=10, timeout=3000, scale=None):
     events = harness_trace(scratch, "retrace", name, ["--seed", run.seed, "--n", n, "--queries", queries,
-                                                       "--focus", focus, "--files", ",".join(files)])
+                                                       "--focus", focus, "--files", ",".join(files)]
+                           + (["--agree-at-scale", scale] if scale else []))
     nload = len([e for e in events if e["t"] == "load"])
     qev = [e for e in events if e["t"] == "q"]
     if qev:
@@ -418,6 +419,49 @@ COMMON_ASSUME = ["TLC (tla2tools 1.8.0) and its Json/IOUtils module overrides",
                  "bounded alphabets in model-checked generation; seeded sampling in traces"]
 
 
+# ---------------------------------------------------------------------------------------------
+# totality at scale: one call per child process (a stack overflow or abort is data)
+# ---------------------------------------------------------------------------------------------
+SCALE = {
+    # family -> [(probe, n)]
+    "descriptor": [("sig-junk", 200000), ("sig-junk-param", 200000), ("sig-arrays", 200000), ("sig-params", 100000), ("sig-class", 100000)],
+    "trace-text": [("text-depth", 200000), ("trace-frames", 200000)],
+    "stacktrace-depth-moderate": [(f"trace-op-{op}", 5000) for op in ("parse", "drop", "display", "typed-mapper", "typed-cache", "eq", "clone", "debug")],
+    "stacktrace-depth": [(f"trace-op-{op}", 200000) for op in ("parse", "eq", "drop", "clone", "display", "debug", "typed-mapper", "typed-cache")],
+}
+
+
+def scale_probes(run, scratch, families, only=None):
+    """B3 at scale: each probe is one library call on an input of size n in a process of its own (8 MiB stack);
+    how the process ended is the recorded outcome; Trace_Scale requires every call to return."""
+    import subprocess as _sp
+    from concurrent.futures import ThreadPoolExecutor
+    from .core import PGV
+    jobs = [(fam, probe, n) for fam in families for probe, n in SCALE[fam] if only is None or any(o in probe for o in only)]
+
+    def one(job):
+        fam, probe, n = job
+        try:
+            p = _sp.run([PGV, "scale-probe", probe, str(n)], stdout=_sp.PIPE, stderr=_sp.PIPE, text=True, timeout=600)
+        except _sp.TimeoutExpired:
+            return {"family": fam, "probe": probe, "n": n, "outcome": "timeout", "same": False, "detail": "no answer in 600 s"}
+        if p.returncode == 0 and "same=" in p.stdout:
+            return {"family": fam, "probe": probe, "n": n, "outcome": "ok", "same": "same=true" in p.stdout, "detail": ""}
+        if p.returncode == 2:
+            raise ToolError(f"scale-probe {probe}: {p.stderr[-300:]}")
+        return {"family": fam, "probe": probe, "n": n, "outcome": "crash", "same": False,
+                "detail": (p.stderr.strip().splitlines() or ["exit %d" % p.returncode])[-1][:200]}
+    with ThreadPoolExecutor(max_workers=6) as ex:
+        events = list(ex.map(one, jobs))
+    run.evaluations += len(events)
+    run.sample({"scale_probe": events[0]})
+    validate_pure_trace(run, scratch, "Trace_Scale", "Trace_Scale", events, workers=2, timeout=600,
+                        corrupt=lambda ev: dict(ev, outcome="crash", same=False),
+                        canary_pred=lambda ev: ev["outcome"] == "ok",
+                        signature=lambda ev: {"family": ev["family"], "probe": ev["probe"], "n": ev["n"], "outcome": ev["outcome"],
+                                              "detail": ev["detail"]})
+
+
 @prop("C01")
 def c01(run, scratch):
     t = run.tier == "thorough"
@@ -482,7 +526,7 @@ def c02(run, scratch):
                 ["blocks_quick", "files_quick", "names_quick", "ambig_quick"]):
         retrace_mc(run, scratch, cfg, "all", workers=14 if t else 10)
     retrace_trace(run, scratch, "Trace_Retrace_all", "all", 300 if t else 60, 300 if t else 150, SMALL_CORPUS,
-                  workers=14 if t else 10)
+                  workers=14 if t else 10, scale=200000 if t else 70000)
     blocks_trace(run, scratch, 100000 if t else 150)
     system_traces(run, scratch, 8 if t else 3, 600 if t else 400)
     system_programs(run, scratch, "query", 5 if t else 4)
@@ -580,6 +624,8 @@ def c08(run, scratch):
         run.sample({"levels": c["levels"], "spec_typed": c["want"]["typed"]})
     text_trace(run, scratch, "Trace_Text_typed", "typed", 150 if t else 30, 40, _c08_corrupt,
                lambda e: e["t"] == "typed", workers=14 if t else 10, files=SMALL_CORPUS[:2])
+    # a cause chain of 5000 levels must go through typed remapping; 200000 levels are finding F8 (recursion per level)
+    scale_probes(run, scratch, ["stacktrace-depth-moderate", "stacktrace-depth"], only=["typed"])
     run.exhaustive = False
     run.assumptions += COMMON_ASSUME
 
@@ -599,6 +645,8 @@ def c17(run, scratch):
             run.sample({"levels": c["levels"]})
     text_trace(run, scratch, "Trace_Text_rt", "rt", 40 if t else 10, 300 if t else 150, _c17_corrupt,
                lambda e: e["t"] == "rt", workers=14 if t else 10)
+    # cause chains of 5000 levels through parse / Display / == / Clone / Debug / Drop; 200000 levels: finding F8
+    scale_probes(run, scratch, ["stacktrace-depth-moderate", "stacktrace-depth"], only=["parse", "display", "eq", "clone", "debug", "drop"])
     run.exhaustive = False
     run.assumptions += COMMON_ASSUME + ["domain of the law: top level carries an exception or a frame; cause levels carry an "
                                         "exception; frames carry a file (StackTraceSyntax!TraceOk)"]
@@ -626,6 +674,7 @@ def c16(run, scratch):
     text_trace(run, scratch, "Trace_Text_sig", "sig", 60 if t else 15, 300 if t else 150, _c16_corrupt,
                lambda e: e["t"] == "sig" and e["out"]["mapper"] == [] and not b2s(e["sig"]).startswith("("),
                workers=14 if t else 10)
+    scale_probes(run, scratch, ["descriptor"])
     run.exhaustive = False
     run.assumptions += COMMON_ASSUME
 
@@ -877,6 +926,8 @@ def c13(run, scratch):
                                               "failing": [b2s(f["arg"]) + ": " + f["what"] for f in ev.get("failing", [])][:3]})
     run.steps[-1]["sessions"] = nload
     run.steps[-1]["calls_not_ok_recorded"] = len(bad)
+    # size: descriptors and stack-trace texts of 10^5 tokens / lines / levels, each call in a process of its own
+    scale_probes(run, scratch, ["descriptor", "trace-text"])
     run.exhaustive = False
     run.assumptions += COMMON_ASSUME + ["harness built with overflow-checks and debug-assertions: a wrapping overflow is observed as a panic"]
 
@@ -918,6 +969,7 @@ def c12(run, scratch):
     # anywhere in a program is reported
     system_programs(run, scratch, "torn", 6 if t else 5)
     system_traces(run, scratch, 4 if t else 1, 600 if t else 400)
+    scale_probes(run, scratch, ["descriptor", "trace-text"])
     run.exhaustive = False
     run.assumptions += COMMON_ASSUME + ["soundness of the two unsafe Pod casts is observed only through results",
                                         "provenance is computed from pointer ranges by the harness"]
@@ -1027,6 +1079,7 @@ def c20(run, scratch):
         run.violation("MC_Sharing_live", {"signature": {"step": "MC_Sharing_live"}, "tlc": r.violation, "output": r.out[-4000:]})
     run.add_tlc("MC_Sharing_live", r, note="temporal: every thread that keeps stepping finishes its query (running ~> finished) under per-thread WF")
     events = harness_trace(scratch, "threads", "threads", ["--seed", run.seed, "--n", 60 if t else 12, "--queries", 300 if t else 120,
+                                                          "--first-use", 400000 if t else 200000,
                                                            "--files", ",".join(SMALL_CORPUS[:3] if t else SMALL_CORPUS[:1])])
     qe = [e for e in events if e["t"] == "q"]
     run.sample({"threads_in_first_session": len({e["thread"] for e in qe if e["sid"] == 1}),
